@@ -429,6 +429,13 @@ def run(ctx, res):
                 res.ob(bad == 0)
                 if bad != 0:
                     res.finding("sections|skipped", "a section named .stack or .symtab can be filtered out before it is processed", witness(bad))
+    # a NAME of the property compared as a prefix (starts_with without the terminating NUL): other names that merely begin with it match too
+    for o_ in outs:
+        for e_ in o_.state.eff:
+            if e_[0] == "bytes-test" and e_[1] == "prefix" and e_[3] in (b'.stack', b'.symtab', b'___exit'):
+                res.ob(False)
+                res.finding("names|prefix-match|%s" % e_[3].decode(), "the name %r is matched as a PREFIX (starts_with without its terminating NUL): a section / symbol whose name merely begins "
+                            "with it (.stack_sizes, .symtab_shndx, ___exit_hook ...) is treated as the one the property means" % e_[3].decode(), witness(o_.state.pc))
     for k, v in seen.items():
         res.ob(bool(v))
         if not v:
